@@ -564,3 +564,440 @@ def classify_file(detector, su, fn=None):
         loc = report_loc(detector, n) if flag is not False else ptgen.node_loc(n)
         out.append((n, sol.loc_id(loc) if loc is not None else None, flag, never))
     return out
+
+
+# ================================================================================================ file-level oracles
+WRITE_FORMS = ('Assign', 'AssignOr', 'AssignAnd', 'AssignXor', 'AssignShiftLeft', 'AssignShiftRight', 'AssignAdd',
+               'AssignSubtract', 'AssignMultiply', 'AssignDivide', 'AssignModulo', 'PreIncrement', 'PostIncrement',
+               'PreDecrement', 'PostDecrement')
+
+
+def state_variables(su):
+    """[(definition node (ContractPart), VariableDefinition, contract)] for contract-level variables"""
+    out = []
+    for n, ctx in walk(su):
+        if n.ty == 'ContractPart' and n.variant == 'VariableDefinition':
+            out.append((n, unbox(n.fields[0]), ctx.contract))
+    return out
+
+
+def var_info(vd):
+    ty = vd.fields[1]
+    attrs = [a for a in vd.fields[2].items]
+    vis = None
+    for a in attrs:
+        if a.variant == 'Visibility':
+            vis = a.fields[0].variant
+    return {
+        'name': ident_name(vd.fields[3]), 'ty': ty,
+        'elementary': ty.variant == 'Type' and ty.fields[1].variant != 'Mapping',
+        'mapping': ty.variant == 'Type' and ty.fields[1].variant == 'Mapping',
+        'constant': any(a.variant == 'Constant' for a in attrs), 'immutable': any(a.variant == 'Immutable' for a in attrs),
+        'vis': vis, 'has_attrs': bool(attrs),
+    }
+
+
+def writes(su):
+    """[(write node, kind, target description, ctx)]: target = ('direct', name) | ('index', name) | ('member', name) |
+    ('tuple', [names]) | ('other', None)"""
+    out = []
+    for n, ctx in walk(su):
+        if n.ty == 'Expression' and n.variant in WRITE_FORMS:
+            t = unbox(n.fields[1])
+            out.append((n, n.variant, _target(t), ctx))
+    return out
+
+
+def _target(t):
+    t = unbox(t)
+    if t.variant == 'Variable':
+        return ('direct', ident_name(t.fields[0]))
+    if t.variant == 'Parenthesis':
+        inner = _target(t.fields[1])
+        return ('paren', inner[1]) if inner[0] in ('direct', 'paren') else ('other', None)
+    if t.variant == 'ArraySubscript' and is_var(t.fields[1]):
+        return ('index', ident_name(unbox(t.fields[1]).fields[0]))
+    if t.variant == 'MemberAccess' and is_var(t.fields[1]):
+        return ('member', ident_name(unbox(t.fields[1]).fields[0]))
+    if t.variant == 'List':
+        names = []
+        for tp in t.fields[1].items:
+            if tp.fields[1].variant == 'Some':
+                p = tp.fields[1].fields[0]
+                if is_var(p.fields[1]):
+                    names.append(ident_name(unbox(p.fields[1]).fields[0]))
+        return ('tuple', names)
+    return ('other', None)
+
+
+def _indirect_names(ws):
+    names = set()
+    for _, _, t, _ in ws:
+        if t[0] in ('index', 'member', 'paren'):
+            names.add(t[1])
+        elif t[0] == 'tuple':
+            names.update(t[1])
+    return names
+
+
+def constant_variables(su, meta=None):
+    ws = writes(su)
+    direct = {t[1] for _, _, t, _ in ws if t[0] == 'direct'}
+    indirect = _indirect_names(ws)
+    out = []
+    for node, vd, contract in state_variables(su):
+        info = var_info(vd)
+        lid = sol.loc_id(ptgen.node_loc(info['ty']))
+        if not info['elementary'] or info['name'] is None:
+            out.append((node, lid, False, False))          # user-defined / array / mapping types: free
+            continue
+        if info['constant']:
+            out.append((node, lid, False, True))
+        elif info['name'] in direct:
+            out.append((node, lid, False, True))
+        elif info['name'] in indirect:
+            out.append((node, lid, False, False))
+        else:
+            out.append((node, lid, True, False))
+    return out
+
+
+def _non_value(v):
+    v = unbox(v)
+    if v.variant == 'StringLiteral':
+        return True
+    if v.variant == 'FunctionCall':
+        callee = unbox(v.fields[1])
+        if callee.variant == 'MemberAccess' and is_var(callee.fields[1], 'abi'):
+            return True
+        if callee.variant == 'Type' and callee.fields[1].variant == 'DynamicBytes':
+            return True
+    return False
+
+
+def immutable_variables(su, meta=None):
+    ws = writes(su)
+    out = []
+    for node, vd, contract in state_variables(su):
+        info = var_info(vd)
+        lid = sol.loc_id(ptgen.node_loc(info['ty']))
+        name = info['name']
+        if not info['elementary'] or name is None:
+            out.append((node, lid, False, False))
+            continue
+        if info['constant'] or info['immutable']:
+            out.append((node, lid, False, True))
+            continue
+        ctor_plain, ctor_other, elsewhere_direct, free_fn, fuzzy = False, False, False, False, False
+        for wn, kind, t, ctx in ws:
+            hit_direct = t[0] == 'direct' and t[1] == name
+            hit_indirect = (t[0] in ('index', 'member', 'paren') and t[1] == name) or (t[0] == 'tuple' and name in t[1])
+            if not (hit_direct or hit_indirect):
+                continue
+            in_ctor = ctx.func is not None and ctx.func.fields[1].variant == 'Constructor' and ctx.contract is not None
+            if hit_indirect:
+                fuzzy = True
+                continue
+            if in_ctor:
+                if kind == 'Assign' and ctx.in_body and not _non_value(wn.fields[2]):
+                    ctor_plain = True
+                else:
+                    ctor_other = True
+            elif ctx.func is not None and ctx.contract is not None:
+                elsewhere_direct = True
+            elif ctx.func is not None:
+                free_fn = True
+            else:
+                fuzzy = True            # a write inside a state-variable initialiser or similar
+        if elsewhere_direct:
+            out.append((node, lid, False, True))
+        elif not ctor_plain and not ctor_other:
+            out.append((node, lid, False, not (fuzzy or free_fn) or True))
+        elif ctor_plain and not (free_fn or fuzzy):
+            out.append((node, lid, True, False))
+        else:
+            out.append((node, lid, False, False))
+    return out
+
+
+def memory_to_calldata(su, meta=None):
+    out = []
+    for n, ctx in walk(su):
+        if not (n.ty in ('ContractPart', 'SourceUnitPart') and n.variant == 'FunctionDefinition'):
+            continue
+        fd = unbox(n.fields[0])
+        kind = fd.fields[1].variant
+        vis = _fn_visibility(fd)
+        has_body = fd.fields[8].variant == 'Some'
+        assigned, fuzzy = set(), set()
+        if has_body:
+            for wn, wkind, t, wctx in writes_in(fd.fields[8].fields[0]):
+                if wkind == 'Assign' and t[0] in ('direct', 'index'):
+                    assigned.add(t[1])
+                elif t[1] is not None and t[0] != 'tuple':
+                    fuzzy.add(t[1])
+                elif t[0] == 'tuple':
+                    fuzzy.update(t[1])
+        for tp in fd.fields[4].items:
+            if tp.fields[1].variant != 'Some':
+                continue
+            p = tp.fields[1].fields[0]
+            if p.fields[2].variant != 'Some':
+                continue
+            sl = p.fields[2].fields[0]
+            lid = sol.loc_id(sl.fields[0])
+            name = ident_name(p.fields[3].fields[0]) if p.fields[3].variant == 'Some' else None
+            if sl.variant != 'Memory' or name is None or kind == 'Constructor' or name in assigned:
+                out.append((n, lid, False, True))
+            elif not has_body:
+                out.append((n, lid, False, False))
+            elif vis in ('Public', 'External') and name not in fuzzy and ctx.contract is not None and kind == 'Function':
+                out.append((n, lid, True, False))
+            else:
+                out.append((n, lid, False, False))
+    return out
+
+
+def writes_in(stmt):
+    fake = Adt('SourceUnit', None, (VecV(()),))
+    out = []
+    acc = []
+    _walk(stmt, Ctx(), acc)
+    for n, ctx in acc:
+        if n.ty == 'Expression' and n.variant in WRITE_FORMS:
+            out.append((n, n.variant, _target(n.fields[1]), ctx))
+    return out
+
+
+def sstore(su, meta=None):
+    qualifying = set()
+    for node, vd, contract in state_variables(su):
+        info = var_info(vd)
+        if info['elementary'] and not info['constant'] and not info['immutable'] and info['name']:
+            qualifying.add(info['name'])
+    out = []
+    for n, ctx in walk(su):
+        if n.ty == 'Expression' and n.variant == 'Assign':
+            t = _target(n.fields[1])
+            lid = sol.loc_id(ptgen.node_loc(n))
+            if t[0] == 'direct' and t[1] in qualifying:
+                out.append((n, lid, True, False))
+            elif t[0] == 'paren':
+                out.append((n, lid, False, False))
+            else:
+                out.append((n, lid, False, True))
+    return out
+
+
+# ---- declaration-level detectors (C06): iff on the stated domain
+def payable_function(su, meta=None):
+    out = []
+    for n, ctx in walk(su):
+        if not (n.ty in ('ContractPart', 'SourceUnitPart') and n.variant == 'FunctionDefinition'):
+            continue
+        fd = unbox(n.fields[0])
+        lid = sol.loc_id(fd.fields[0])
+        if ctx.contract is None:
+            out.append((n, lid, False, True))                  # free functions are not members of a contract
+            continue
+        kind = fd.fields[1].variant
+        vis = _fn_visibility(fd)
+        payable = any(a.variant == 'Mutability' and a.fields[0].variant == 'Payable' for a in fd.fields[5].items)
+        has_body = fd.fields[8].variant == 'Some'
+        should = has_body and vis in ('Public', 'External') and not payable
+        if kind != 'Function':
+            out.append((n, lid, False, not should))            # other kinds: free when the shape matches
+        else:
+            out.append((n, lid, should, not should))
+    return out
+
+
+def private_constant(su, meta=None):
+    out = []
+    for node, vd, contract in state_variables(su):
+        info = var_info(vd)
+        lid = sol.loc_id(ptgen.node_loc(info['ty']))
+        if not info['elementary']:
+            out.append((node, lid, False, info['mapping'] or not info['constant']))
+            continue
+        should = info['constant'] and info['vis'] != 'Private' and not info['immutable']
+        if info['immutable'] and info['constant']:
+            out.append((node, lid, False, False))
+        else:
+            out.append((node, lid, should, not should))
+    for n, ctx in walk(su):
+        if n.ty == 'SourceUnitPart' and n.variant == 'VariableDefinition':
+            vd = unbox(n.fields[0])
+            out.append((n, sol.loc_id(ptgen.node_loc(vd.fields[1])), False, False))
+    return out
+
+
+def private_vars_leading_underscore(su, meta=None):
+    out = []
+    for node, vd, contract in state_variables(su):
+        info = var_info(vd)
+        lid = sol.loc_id(ptgen.node_loc(info['ty']))
+        if not info['elementary']:
+            out.append((node, lid, False, info['mapping']))
+            continue
+        if info['constant']:
+            out.append((node, lid, False, True))
+            continue
+        name, vis = info['name'], info['vis']
+        us = name.startswith('_')
+        should = (vis in ('Private', 'Internal') and not us) or (vis == 'Public' and us)
+        if vis == 'External':
+            out.append((node, lid, False, False))
+        else:
+            out.append((node, lid, should, not should))
+    for n, ctx in walk(su):
+        if n.ty == 'SourceUnitPart' and n.variant == 'VariableDefinition':
+            vd = unbox(n.fields[0])
+            out.append((n, sol.loc_id(ptgen.node_loc(vd.fields[1])), False, True))
+    return out
+
+
+def private_func_leading_underscore(su, meta=None):
+    out = []
+    for n, ctx in walk(su):
+        if not (n.ty in ('ContractPart', 'SourceUnitPart') and n.variant == 'FunctionDefinition'):
+            continue
+        fd = unbox(n.fields[0])
+        if fd.fields[2].variant != 'Some':
+            out.append((n, sol.loc_id(fd.fields[0]), False, True))
+            continue
+        name_ident = fd.fields[2].fields[0]
+        lid = sol.loc_id(name_ident.fields[0])
+        kind = fd.fields[1].variant
+        vis = _fn_visibility(fd)
+        if ctx.contract is None or kind != 'Function' or vis is None:
+            out.append((n, lid, False, True))
+            continue
+        us = ident_name(name_ident).startswith('_')
+        should = (vis in ('Public', 'External') and us) or (vis in ('Private', 'Internal') and not us)
+        out.append((n, lid, should, not should))
+    return out
+
+
+def constructor_order(su, meta=None):
+    out = []
+    for n, ctx in walk(su):
+        if n.ty == 'SourceUnitPart' and n.variant == 'ContractDefinition':
+            cd = unbox(n.fields[0])
+            seen_fn = False
+            for part in cd.fields[4].items:
+                if part.variant != 'FunctionDefinition':
+                    continue
+                fd = unbox(part.fields[0])
+                kind = fd.fields[1].variant
+                lid = sol.loc_id(fd.fields[0])
+                if kind == 'Constructor':
+                    out.append((part, lid, seen_fn, not seen_fn))
+                else:
+                    out.append((part, lid, False, True))
+                    if kind != 'Modifier':
+                        seen_fn = True
+        elif n.ty == 'SourceUnitPart' and n.variant == 'FunctionDefinition':
+            out.append((n, sol.loc_id(unbox(n.fields[0]).fields[0]), False, True))
+    return out
+
+
+# ---- version-gated detectors (C09)
+def _uses_safemath(su):
+    for n, ctx in walk(su):
+        if n.variant == 'Using':
+            u = unbox(n.fields[0])
+            if u.fields[1].variant == 'Library':
+                if any(ident_name(i) == 'SafeMath' for i in u.fields[1].fields[0].fields[1].items):
+                    return True
+    return False
+
+
+def _version_cond(meta, op, ref):
+    """z3/python condition `version op ref` for the file's version (M, m, p); None when the file has no single full version"""
+    v = (meta or {}).get('version')
+    if v is None:
+        return None
+    M, m, p = v
+    a, b_, c = ref
+    if all(isinstance(x, int) for x in v):
+        return ((M, m, p) < ref) if op == '<' else ((M, m, p) >= ref)
+    lt = z3.Or(M < a, z3.And(M == a, z3.Or(m < b_, z3.And(m == b_, p < c))))
+    return lt if op == '<' else z3.Not(lt)
+
+
+def _safe_math(pre):
+    def f(su, meta=None):
+        using = _uses_safemath(su)
+        cond = _version_cond(meta, '<' if pre else '>=', (0, 8, 0))
+        out = []
+        for n, ctx in walk(su):
+            if n.ty == 'Expression' and n.variant == 'FunctionCall':
+                callee = unbox(n.fields[1])
+                if callee.variant == 'MemberAccess' and ident_name(callee.fields[2]) in ('add', 'sub', 'mul', 'div'):
+                    lid = sol.loc_id(callee.fields[0])
+                    if cond is None:
+                        out.append((n, lid, False, False))
+                    elif not using:
+                        out.append((n, lid, False, True))
+                    else:
+                        out.append((n, lid, cond, bnot(cond)))
+        return out
+    return f
+
+
+def _require_string(n):
+    if n.ty == 'Expression' and n.variant == 'FunctionCall' and is_var(n.fields[1], 'require') and n.fields[2].items:
+        last = n.fields[2].items[-1]
+        if last.variant == 'StringLiteral':
+            return last.fields[0].items[0]
+    return None
+
+
+def string_errors(su, meta=None):
+    cond = _version_cond(meta, '>=', (0, 8, 4))
+    out = []
+    for n, ctx in walk(su):
+        lit = _require_string(n)
+        if lit is not None:
+            lid = sol.loc_id(lit.fields[0])
+            out.append((n, lid, False, False) if cond is None else (n, lid, cond, bnot(cond)))
+    return out
+
+
+def short_revert_string(su, meta=None):
+    cond = _version_cond(meta, '<', (0, 8, 4))
+    out = []
+    for n, ctx in walk(su):
+        lit = _require_string(n)
+        if lit is not None:
+            lid = sol.loc_id(lit.fields[0])
+            s = lit.fields[2]
+            if getattr(s, 'byte_len', None) is not None:
+                long_ = z3.UGE(s.byte_len, z3.BitVecVal(32, 64))
+            else:
+                long_ = len(s.v.encode('utf-8')) >= 32
+            if cond is None:
+                out.append((n, lid, False, False))
+            else:
+                fl = band(cond, long_)
+                out.append((n, lid, fl, bnot(fl)))
+    return out
+
+
+FILE_DETECTORS = {
+    'constant_variables': constant_variables, 'immutable_variables': immutable_variables,
+    'memory_to_calldata': memory_to_calldata, 'sstore': sstore, 'payable_function': payable_function,
+    'private_constant': private_constant, 'private_vars_leading_underscore': private_vars_leading_underscore,
+    'private_func_leading_underscore': private_func_leading_underscore, 'constructor_order': constructor_order,
+    'safe_math_pre_080': _safe_math(True), 'safe_math_post_080': _safe_math(False), 'string_errors': string_errors,
+    'short_revert_string': short_revert_string,
+}
+
+_classify_nodes = classify_file
+
+
+def classify_file(detector, su, fn=None, meta=None):
+    if fn is None and detector in FILE_DETECTORS:
+        return FILE_DETECTORS[detector](su, meta)
+    return _classify_nodes(detector, su, fn)
